@@ -69,14 +69,25 @@ class U0(_Ident, Symbol):
     serial: int
 
 
-HIERARCHY = {"T0": T0, "T1": T1, "T2": T2, "T3": T3, "T4": T4, "U0": U0}
+@dataclass(eq=False, repr=False)
+class F0(T0):
+    """A container-like symbol: it is falsy while it is empty (defines __len__)."""
+
+    parts: List[int] = field(default_factory=list)
+
+    def __len__(self):
+        return len(self.parts)
+
+
+HIERARCHY = {"T0": T0, "T1": T1, "T2": T2, "T3": T3, "T4": T4, "U0": U0, "F0": F0}
 SUBCLASSES = {
-    "T0": ["T0", "T1", "T2", "T3", "T4"],
+    "T0": ["T0", "T1", "T2", "T3", "T4", "F0"],
     "T1": ["T1", "T2", "T4"],
     "T2": ["T2"],
     "T3": ["T3", "T4"],
     "T4": ["T4"],
     "U0": ["U0"],
+    "F0": ["F0"],
 }
 
 # ---------------------------------------------------------------- ontology
@@ -104,6 +115,16 @@ class Boss(_Ident, Role[Human], Symbol):
     human: Human
     serial: int = 0
     head_of: Org = None
+
+
+@dataclass(eq=False, repr=False)
+class Dean(_Ident, Role[Human], Symbol):
+    """A role that owns a super-property field itself (employed_by: WorksFor) next to its sub-property (dean_of: HeadOf)."""
+
+    human: Human
+    serial: int = 0
+    dean_of: Org = None
+    employed_by: Org = None
 
 
 @dataclass(eq=False, repr=False)
@@ -172,6 +193,8 @@ class Funds(Supports):
 Human.works_for = WorksFor(Human, "works_for")
 Human.member_of = MemberOf(Human, "member_of")
 Boss.head_of = HeadOf(Boss, "head_of")
+Dean.dean_of = HeadOf(Dean, "dean_of")
+Dean.employed_by = WorksFor(Dean, "employed_by")
 Envoy.chairs = Chairs(Envoy, "chairs")
 Envoy.affiliated = MemberOf(Envoy, "affiliated")
 Org.members = Member(Org, "members")
@@ -180,7 +203,7 @@ Org.partners = PartnerOf(Org, "partners")
 Org.funds = Funds(Org, "funds")
 Org.related = RelatedTo(Org, "related")
 
-ONTOLOGY_CLASSES = {"Org": Org, "Human": Human, "Boss": Boss, "Envoy": Envoy}
+ONTOLOGY_CLASSES = {"Org": Org, "Human": Human, "Boss": Boss, "Envoy": Envoy, "Dean": Dean}
 
 # The same ontology as a plain table (the reference model reads only this).
 # property name -> {domain class, field, kind, range class, supers (property names), inverse, transitive}
@@ -190,6 +213,7 @@ ONTOLOGY = {
         "Human": {"fields": ["works_for", "member_of"], "role_taker": None},
         "Boss": {"fields": ["head_of"], "role_taker": "human"},
         "Envoy": {"fields": ["chairs", "affiliated"], "role_taker": None},
+        "Dean": {"fields": ["dean_of", "employed_by"], "role_taker": "human"},
     },
     # property (one per managed field) -> class, field, kind, range, descriptor class, the descriptor classes it
     # specialises (strict supers), the descriptor class of its inverse, transitivity
@@ -198,6 +222,8 @@ ONTOLOGY = {
         "MemberOf": {"cls": "Human", "field": "member_of", "kind": "list", "range": "Org", "descriptor": "MemberOf", "supers": [], "inverse": "Member", "transitive": False},
         "WorksFor": {"cls": "Human", "field": "works_for", "kind": "single", "range": "Org", "descriptor": "WorksFor", "supers": ["MemberOf"], "inverse": "Member", "transitive": False},
         "HeadOf": {"cls": "Boss", "field": "head_of", "kind": "single", "range": "Org", "descriptor": "HeadOf", "supers": ["WorksFor", "MemberOf"], "inverse": "Member", "transitive": False},
+        "DeanOf": {"cls": "Dean", "field": "dean_of", "kind": "single", "range": "Org", "descriptor": "HeadOf", "supers": ["WorksFor", "MemberOf"], "inverse": "Member", "transitive": False},
+        "EmployedBy": {"cls": "Dean", "field": "employed_by", "kind": "single", "range": "Org", "descriptor": "WorksFor", "supers": ["MemberOf"], "inverse": "Member", "transitive": False},
         "Chairs": {"cls": "Envoy", "field": "chairs", "kind": "single", "range": "Org", "descriptor": "Chairs", "supers": ["HeadOf", "WorksFor", "MemberOf"], "inverse": "Member", "transitive": False},
         "MemberOfE": {"cls": "Envoy", "field": "affiliated", "kind": "list", "range": "Org", "descriptor": "MemberOf", "supers": [], "inverse": "Member", "transitive": False},
         "Funds": {"cls": "Org", "field": "funds", "kind": "list", "range": "Org", "descriptor": "Funds", "supers": ["Supports", "RelatedTo"], "inverse": None, "transitive": False},
